@@ -147,9 +147,11 @@ Print Assumptions C02_debit_matches_issue.
    EvRefund escrow -> consumer, EvWithdraw escrow -> destination, EvDepositIn owner ->
    deposit account, EvDepositOut deposit account -> owner, EvSlash burned from the deposit
    account, every other event 0), and every successful operation other than the plain bank
-   send OTransfer changes the balances by exactly the effects of the events it appends *)
+   send OTransfer changes the balances by exactly the effects of the events it appends.
+   I_wd s (a conjunct of Inv: no stored withdrawal address is a module account, repair D11)
+   is what makes "EvWithdraw escrow -> destination" a payment to an ordinary account *)
 Theorem C02_only_events_move_money : forall cfg s o s',
-  handle cfg s o = Ok s' -> (forall f t a, o <> OTransfer f t a) ->
+  I_wd s -> handle cfg s o = Ok s' -> (forall f t a, o <> OTransfer f t a) ->
   exists d, log s' = d ++ log s /\ forall x, bal s' x = bal s x + evs_delta d x.
 Proof. exact TraceMoney.only_events_move_money. Qed.
 Print Assumptions C02_only_events_move_money.
